@@ -134,7 +134,7 @@ Print Assumptions open_no_foreign_exception.
 (* parsing the encoded bytes, a stream of the plug-in's kind, or a named file containing the
    bytes equals parsing the string (a text file is read with universal newlines) *)
 Theorem entry_points_agree : forall db ps cd u s b data,
-  enc cd s = Some b -> dec cd b = Some s ->
+  enc cd s = Some b -> dec cd b = Some s -> fdec cd b = FText s ->
   parse_bytes db ps cd u b data = parse_string db ps cd u s data /\
   parse_file db ps cd u (FStream (own_stream u s b)) data = parse_string db ps cd u s data /\
   parse_file db ps cd u (FOpened b) data
@@ -143,7 +143,7 @@ Proof. exact Proofs.EntryPoints.entry_points_agree. Qed.
 Print Assumptions entry_points_agree.
 
 Theorem entry_points_agree_file : forall db ps cd u s b data,
-  enc cd s = Some b -> dec cd b = Some s -> (u = true -> ~ In 13%N s) ->
+  enc cd s = Some b -> dec cd b = Some s -> fdec cd b = FText s -> (u = true -> ~ In 13%N s) ->
   parse_file db ps cd u (FOpened b) data = parse_string db ps cd u s data.
 Proof. exact Proofs.EntryPoints.entry_points_agree_file. Qed.
 Print Assumptions entry_points_agree_file.
@@ -156,11 +156,34 @@ Theorem to_bytes_is_encoded_to_string : forall wd ws cd u d t,
 Proof. exact Proofs.EntryPoints.to_bytes_is_encoded_to_string. Qed.
 Print Assumptions to_bytes_is_encoded_to_string.
 
-(* writing to a file writes exactly those bytes *)
-Theorem write_file_writes_to_bytes : forall wd ws cd u d,
+(* writing to a file writes exactly those bytes -- REFUTED as stated (finding FC17b): a writer
+   that never calls write() leaves the file empty while to_bytes of the empty document is the
+   byte-order mark of the encoding *)
+(* full statement:  forall wd ws cd u d,
+     write_file wd ws cd u d WOpened = (do b <- to_bytes wd ws cd u d; Ok (None, Some (SBytes b))) *)
+Theorem write_file_writes_to_bytes_refuted :
+  exists (ws : bool -> unit -> res (list str)) cd u d,
+    write_file unit ws cd u d WOpened <> (do b <- to_bytes unit ws cd u d; Ok (None, Some (SBytes b))).
+Proof. exact Proofs.EntryPoints.write_file_writes_to_bytes_refuted. Qed.
+Print Assumptions write_file_writes_to_bytes_refuted.
+
+(* strongest true variant: it holds whenever the writer writes at least one chunk, or the
+   encoding of the empty text is empty (utf-8, latin-1, ascii ...), or the writer is binary *)
+Theorem write_file_writes_to_bytes_partial : forall wd ws cd u d,
+  (u = true -> ws true d = Ok [] -> enc cd [] = Some []) ->
   write_file wd ws cd u d WOpened = (do b <- to_bytes wd ws cd u d; Ok (None, Some (SBytes b))).
-Proof. exact Proofs.EntryPoints.write_file_writes_to_bytes. Qed.
-Print Assumptions write_file_writes_to_bytes.
+Proof. exact Proofs.EntryPoints.write_file_writes_to_bytes_partial. Qed.
+Print Assumptions write_file_writes_to_bytes_partial.
+
+(* every installed suffix names a format: on a table accepted by installed_table_ok (evaluated
+   on the regenerated table of the running environment on every check run), the class chosen
+   from a file suffix is the class of some format name *)
+Theorem installed_suffix_has_name : forall inst df g sfx k0,
+  installed_table_ok inst df = true -> In ((g, sfx), k0) inst -> endswith g s_suffixes = true ->
+  exists n k, find_plugin [] inst df (strip_suffix g s_suffixes) NNone (Some (97%N :: sfx)) = Ok k
+           /\ find_plugin [] inst df (strip_suffix g s_suffixes) (NStr n) None = Ok k.
+Proof. exact Proofs.Plugins.installed_suffix_has_name. Qed.
+Print Assumptions installed_suffix_has_name.
 
 (* choosing the format from the file suffix equals naming it, whenever the registry maps
    the suffix and the name to the same class (register_then_find_name / _suffix give that for
@@ -177,7 +200,7 @@ Print Assumptions suffix_equals_name.
 
 (* the module-level readers and writers inherit the agreement *)
 Theorem db_entry_points_agree : forall db plugins r inst df cd empty s b fmt,
-  enc cd s = Some b -> dec cd b = Some s -> ~ In 13%N s ->
+  enc cd s = Some b -> dec cd b = Some s -> fdec cd b = FText s -> ~ In 13%N s ->
   db_parse_bytes db plugins r inst df cd empty b fmt = db_parse_string db plugins r inst df cd empty s fmt /\
   (forall fname, find_plugin r inst df g_input fmt fname = find_plugin r inst df g_input fmt None ->
      db_parse_file db plugins r inst df cd empty (FOpened b) fname fmt
@@ -228,10 +251,19 @@ Proof. vm_compute. repeat split. Qed.
 
 (* the codec hypotheses hold of real codecs on non-ASCII text; a recording plug-in sees the
    same text through all entry points *)
+Example write_partial_hypothesis :
+  enc codec_utf8 [] = Some [] /\ enc codec_latin1 [] = Some [] /\ enc codec_utf16 [] = Some [255; 254]%N
+  /\ installed_table_ok ex_inst ex_df = true.
+Proof. vm_compute. repeat split. Qed.
+
 Example codec_example :
   enc codec_utf8 [233; 8364; 128512]%N = Some [195; 169; 226; 130; 172; 240; 159; 152; 128]%N
   /\ dec codec_utf8 [195; 169; 226; 130; 172; 240; 159; 152; 128]%N = Some [233; 8364; 128512]%N
+  /\ fdec codec_utf8 [195; 169; 226; 130; 172; 240; 159; 152; 128]%N = FText [233; 8364; 128512]%N
   /\ enc codec_latin1 [233]%N = Some [233]%N /\ dec codec_latin1 [233]%N = Some [233]%N
+  /\ enc codec_utf16 [233; 128512]%N = Some [255; 254; 233; 0; 61; 216; 0; 222]%N
+  /\ fdec codec_utf16 [255; 254; 233; 0; 61; 216; 0; 222]%N = FText [233; 128512]%N
+  /\ fdec codec_utf16 [233; 0]%N = FOtherError /\ dec codec_utf16 [233; 0]%N = Some [233]%N
   /\ parse_bytes (list stream) (fun s d => Ok (d ++ [s])) codec_utf8 true [195; 169]%N [] = Ok [SText [233%N]]
   /\ parse_file (list stream) (fun s d => Ok (d ++ [s])) codec_utf8 true (FOpened [97; 13; 10; 98]%N) []
      = Ok [SText [97; 10; 98]%N].
